@@ -742,6 +742,10 @@ func (r *yieldRewriter) rewriteBreakContinues(body *ast.BlockStmt) {
 				r.assert(n.Label == nil, n, "continue with label not supported")
 				return X.Return(r.CallContinue())
 			case token.GOTO:
+				// goto in nested non-yield func lit (not the generated thunk) is native
+				if top := funcLitStack.top(); top != nil && top.Type.Func.IsValid() {
+					return
+				}
 				r.assert(false, n, "goto not supported")
 			case token.FALLTHROUGH:
 				if inSwitch() {
